@@ -5,6 +5,7 @@ cd /verif
 IDS=${@:-$(ls seeded)}
 for ID in $IDS; do
   P=${ID%%-*}
+  if grep -q '"obsolete_since"' /verif/seeded/$ID/meta.json; then echo "$ID OBSOLETE (see meta.json)"; continue; fi
   W=/tmp/recheck_$$_$ID
   git -C /repo worktree add -q --detach $W HEAD || { echo "$ID ERROR worktree"; continue; }
   if git -C $W apply /verif/seeded/$ID/patch.diff 2>/dev/null; then
